@@ -280,6 +280,19 @@ var stWant = map[string]stExpect{
 	"crossbar.Start":                             {true, true, true},
 }
 
+// exact IR of a few corpus functions: guards against a translation that passes by producing nothing
+var stShape = map[string]string{
+	"ttlcode.CodeStore.Locked":               "Lock c:CodeStore.Mutex; Wr c:CodeStore.store; Unlock c:CodeStore.Mutex",
+	"ttlcode.CodeStore.DeferUnlock":          "Lock c:CodeStore.Mutex; Choice{Unlock c:CodeStore.Mutex; Return | Skip}; Rd c:CodeStore.store; Unlock c:CodeStore.Mutex; Return; Unlock c:CodeStore.Mutex",
+	"ttlcode.CodeStore.BreakAfterUnlock":     "Loop{Lock c:CodeStore.Mutex; Wr c:CodeStore.store; Unlock c:CodeStore.Mutex}; Lock c:CodeStore.Mutex; Unlock c:CodeStore.Mutex",
+	"deny.Store.Prune":                       "Lock s:deny.Store.Mutex; Rd s:deny.Store.DenyList; Loop{Wr s:deny.Store.AllowList; Rd s:deny.Store.DenyList}; Unlock s:deny.Store.Mutex",
+	"chanmap.Store.AliasUsedAfterUnlock":     "Lock s:chanmap.Store.Mutex; Rd s:chanmap.Store.ChildrenByParent; Unlock s:chanmap.Store.Mutex; Wr s:chanmap.Store.ChildrenByParent",
+	"crossbar.Hub.SelectDefaultSend":         "RLock h:Hub.mu; Rd h:Hub.clients; Loop{Rd h:Hub.clients}; Unlock h:Hub.mu",
+	"crossbar.Hub.BlockingSelectWhileLocked": "Lock h:Hub.mu; Choice{Block h.unregister | Block done}; Unlock h:Hub.mu",
+	"crossbar.Hub.run":                       "Loop{Block h.unregister; Lock h:Hub.mu; Rd h:Hub.clients; Choice{Wr h:Hub.clients | Skip}; Unlock h:Hub.mu}",
+	"crossbar.Client.WrongClient":            "Lock c.stats.tx:Frames.mu; Wr o.stats.tx:Frames.last; Unlock c.stats.tx:Frames.mu",
+}
+
 // helpers that must NOT become entries (they are inlined)
 var stHelpers = []string{"deny.Store.prune", "deny.Store.prune2", "crossbar.Hub.drop"}
 
@@ -304,6 +317,14 @@ func (c *CodeStore) X() { c.Lock(); leak = c.store; c.Unlock() }`, "non-local va
 func (c *CodeStore) X(b *box) { c.Lock(); b.m = c.store; c.Unlock() }`, "is stored in a field"},
 	{"sent-on-channel", `func (c *CodeStore) X(ch chan map[string]int) { c.Lock(); ch <- c.store; c.Unlock() }`, "is sent on a channel"},
 	{"recursion", `func (c *CodeStore) X(n int) { c.Lock(); c.store["a"] = n; c.Unlock(); if n > 0 { c.X(n - 1) } }`, "recursive"},
+	{"whole-struct-copy", `func (c *CodeStore) X() CodeStore { return *c }`, "whole CodeStore is copied"},
+	{"whole-struct-overwrite", `func (c *CodeStore) X() { *c = CodeStore{} }`, "whole CodeStore is overwritten"},
+	{"deferred-call-reads-guarded", `func show(n int) {}
+func (c *CodeStore) X() { c.Lock(); defer show(len(c.store)); c.Unlock() }`, "deferred call whose arguments"},
+	{"callback-under-lock", `func each(f func()) { f() }
+func (c *CodeStore) X() { c.Lock(); each(func() { c.store["a"] = 1 }); c.Unlock() }`, "call order unknown"},
+	{"unknown-mutex", `type other struct{ mu interface{ Lock(); Unlock() } }
+func (c *CodeStore) X(o *other) { o.mu.Lock(); c.store["a"] = 1; o.mu.Unlock() }`, "unknown lock"},
 	{"fallthrough", `func (c *CodeStore) X(n int) { c.Lock(); switch n { case 0: fallthrough; case 1: }; c.Unlock() }`, "fallthrough"},
 }
 
@@ -375,6 +396,11 @@ func selftest() (bool, string, string) {
 	for _, n := range names {
 		if _, listed := stWant[n]; !listed {
 			bad("%s: corpus function without an expected verdict", n)
+		}
+	}
+	for _, e := range t.entries {
+		if want, ok := stShape[e.Name]; ok && e.Body.Short() != want {
+			bad("%s: IR is\n    %s\n  expected\n    %s", e.Name, e.Body.Short(), want)
 		}
 	}
 	for _, h := range stHelpers {
